@@ -146,6 +146,28 @@ type vgUnion struct {
 	Rest  []vgUVal `@@*`
 }
 
+// a union whose members implement the interface by value (first) and by
+// pointer (second)
+type vgUMix interface{ vgm() }
+
+type vgMA struct {
+	V string `@A`
+}
+
+func (vgMA) vgm() {}
+
+type vgMB struct {
+	V string `@B`
+	W string `@C?`
+}
+
+func (*vgMB) vgm() {}
+
+type vgUnionMixed struct {
+	First vgUMix   `@@`
+	Rest  []vgUMix `@@*`
+}
+
 // --- abandoned attempts (C02)
 
 type vgLeakInner struct {
@@ -287,29 +309,36 @@ var (
 		},
 		opts: []Option{Union[vgUVal](vgUA{}, vgUB{})},
 	}
+	vhUnionMixedCfg = vhConfig{
+		unions: map[reflect.Type][]reflect.Type{
+			reflect.TypeOf((*vgUMix)(nil)).Elem(): {reflect.TypeOf(vgMA{}), reflect.TypeOf(&vgMB{})},
+		},
+		opts: []Option{Union[vgUMix](vgMA{}, &vgMB{})},
+	}
 )
 
-func VH_C01_Seq()       { vhC01[vgSeq](vhNoElide) }
-func VH_C01_FarTypes()  { vhC01[vgGroup](vhFarElide) }
-func VH_C01_Alt()       { vhC01[vgAlt](vhNoElide) }
-func VH_C01_Opt()       { vhC01[vgOpt](vhNoElide) }
-func VH_C01_Plus()      { vhC01[vgPlus](vhNoElide) }
-func VH_C01_Group()     { vhC01[vgGroup](vhNoElide) }
-func VH_C01_NonEmpty()  { vhC01[vgNonEmpty](vhNoElide) }
-func VH_C01_Sugar()     { vhC01[vgSugar](vhNoElide) }
-func VH_C01_Multi()     { vhC01[vgMulti](vhNoElide) }
-func VH_C01_ParserTag() { vhC01[vgParserTag](vhNoElide) }
-func VH_C01_Neg()       { vhC01[vgNeg](vhNoElide) }
-func VH_C01_Lookahead() { vhC01[vgLookahead](vhNoElide) }
-func VH_C01_Typed()     { vhC01[vgTyped](vhNoElide) }
-func VH_C01_Fold()      { vhC01[vgFold](vhFoldA) }
-func VH_C01_Sub()       { vhC01[vgSub](vhNoElide) }
-func VH_C01_Val()       { vhC01[vgVal](vhNoElide) }
-func VH_C01_Rec()       { vhC01[vgRec](vhNoElide) }
-func VH_C01_Union()     { vhC01[vgUnion](vhUnionCfg) }
-func VH_C01_Tokens()    { vhC01[vgTokens](vhElideWs) }
-func VH_C01_ElideSeq()  { vhC01[vgSeq](vhElideWs) }
-func VH_C01_ElideAlt()  { vhC01[vgAlt](vhElideWsCm) }
+func VH_C01_Seq()        { vhC01[vgSeq](vhNoElide) }
+func VH_C01_FarTypes()   { vhC01[vgGroup](vhFarElide) }
+func VH_C01_Alt()        { vhC01[vgAlt](vhNoElide) }
+func VH_C01_Opt()        { vhC01[vgOpt](vhNoElide) }
+func VH_C01_Plus()       { vhC01[vgPlus](vhNoElide) }
+func VH_C01_Group()      { vhC01[vgGroup](vhNoElide) }
+func VH_C01_NonEmpty()   { vhC01[vgNonEmpty](vhNoElide) }
+func VH_C01_Sugar()      { vhC01[vgSugar](vhNoElide) }
+func VH_C01_Multi()      { vhC01[vgMulti](vhNoElide) }
+func VH_C01_ParserTag()  { vhC01[vgParserTag](vhNoElide) }
+func VH_C01_Neg()        { vhC01[vgNeg](vhNoElide) }
+func VH_C01_Lookahead()  { vhC01[vgLookahead](vhNoElide) }
+func VH_C01_Typed()      { vhC01[vgTyped](vhNoElide) }
+func VH_C01_Fold()       { vhC01[vgFold](vhFoldA) }
+func VH_C01_Sub()        { vhC01[vgSub](vhNoElide) }
+func VH_C01_Val()        { vhC01[vgVal](vhNoElide) }
+func VH_C01_Rec()        { vhC01[vgRec](vhNoElide) }
+func VH_C01_Union()      { vhC01[vgUnion](vhUnionCfg) }
+func VH_C01_UnionMixed() { vhC01[vgUnionMixed](vhUnionMixedCfg) }
+func VH_C01_Tokens()     { vhC01[vgTokens](vhElideWs) }
+func VH_C01_ElideSeq()   { vhC01[vgSeq](vhElideWs) }
+func VH_C01_ElideAlt()   { vhC01[vgAlt](vhElideWsCm) }
 
 func VH_C02_Leak()       { vhC01[vgLeak](vhNoElide) }
 func VH_C02_LeakOpt()    { vhC01[vgLeakOpt](vhNoElide) }
@@ -365,16 +394,17 @@ func VH_C01_EmptyCaptures() { vhC01[vgEmptyCaptures](vhNoElide) }
 
 func VH_C02_Canary() { VH_C01_Canary() }
 
-func VH_C06_Seq()      { vhC06[vgSeq](vhNoElide) }
-func VH_C06_Alt()      { vhC06[vgAlt](vhElideWs) }
-func VH_C06_Group()    { vhC06[vgGroup](vhNoElide) }
-func VH_C06_NonEmpty() { vhC06[vgNonEmpty](vhNoElide) }
-func VH_C06_Neg()      { vhC06[vgNeg](vhNoElide) }
-func VH_C06_Sub()      { vhC06[vgSub](vhNoElide) }
-func VH_C06_Union()    { vhC06[vgUnion](vhUnionCfg) }
-func VH_C06_EmptyTok() { vhC06[vgEmptyTok](vhNoElide) }
-func VH_C06_Tokens()   { vhC06[vgTokens](vhElideWs) }
-func VH_C06_Leak()     { vhC06[vgLeak](vhNoElide) }
+func VH_C06_Seq()        { vhC06[vgSeq](vhNoElide) }
+func VH_C06_Alt()        { vhC06[vgAlt](vhElideWs) }
+func VH_C06_Group()      { vhC06[vgGroup](vhNoElide) }
+func VH_C06_NonEmpty()   { vhC06[vgNonEmpty](vhNoElide) }
+func VH_C06_Neg()        { vhC06[vgNeg](vhNoElide) }
+func VH_C06_Sub()        { vhC06[vgSub](vhNoElide) }
+func VH_C06_Union()      { vhC06[vgUnion](vhUnionCfg) }
+func VH_C06_UnionMixed() { vhC06[vgUnionMixed](vhUnionMixedCfg) }
+func VH_C06_EmptyTok()   { vhC06[vgEmptyTok](vhNoElide) }
+func VH_C06_Tokens()     { vhC06[vgTokens](vhElideWs) }
+func VH_C06_Leak()       { vhC06[vgLeak](vhNoElide) }
 
 func VH_C06_NamedAlt()  { vhC06[vgNamedAlt](vhElideWs) }
 func VH_C06_Elided()    { vhC06[vgElided](vhElideWs) }
